@@ -1058,6 +1058,85 @@ Proof.
 Qed.
 End Flatten.
 
+(** ---------------------------------------------------------------- filling the build data again *)
+Lemma zadd_zeros l : zadd (repeat 0%Z (length l)) l = l.
+Proof. induction l as [|x l IH]; simpl; [reflexivity|]. rewrite IH. reflexivity. Qed.
+
+Lemma built_counts_other m cub mins data depth t id :
+  id <> 0%Z -> built m cub mins data depth t -> counts_of id t = repeat 0%Z (size t).
+Proof.
+  intros Hne. induction 1; try reflexivity.
+  - unfold counts_of. cbn [lookups_of map].
+    change (odflt (lookup id [(0%Z, len data)])) with (getd id [(0%Z, len data)]).
+    rewrite getd_single by exact Hne. reflexivity.
+  - rewrite counts_of_node, getd_single by exact Hne. rewrite IHbuilt1, IHbuilt2.
+    simpl. rewrite repeat_app. reflexivity.
+Qed.
+
+Lemma built_leaf_counts_other m cub mins data depth t id :
+  id <> 0%Z -> built m cub mins data depth t ->
+  map odflt (leaf_counts id t) = repeat 0%Z (nleaves t).
+Proof.
+  intros Hne. unfold leaf_counts. induction 1; try reflexivity.
+  - cbn [leaves map nleaves repeat].
+    change (odflt (lookup id [(0%Z, len data)])) with (getd id [(0%Z, len data)]).
+    rewrite getd_single by exact Hne. reflexivity.
+  - simpl. rewrite !map_app, IHbuilt1, IHbuilt2, repeat_app. reflexivity.
+Qed.
+
+Lemma built_leaf_arrivals m cub mins data depth t :
+  built m cub mins data depth t -> leaf_arrivals data t = map odflt (leaf_counts 0 t).
+Proof.
+  unfold leaf_counts. induction 1; try reflexivity.
+  simpl. rewrite !map_app, IHbuilt1, IHbuilt2. reflexivity.
+Qed.
+
+(** filling the build data under another id (fresh, or with reset) reproduces the build counts at
+    every node and at every leaf — for every [N] *)
+Lemma fill_build_agree m cub mins data depth t id reset :
+  built m cub mins data depth t -> (reset = true \/ id <> 0%Z) ->
+  counts_of id (fill data t id reset) = counts_of 0 t /\
+  map odflt (leaf_counts id (fill data t id reset)) = map odflt (leaf_counts 0 t).
+Proof.
+  intros Hb Hc. destruct reset.
+  - rewrite fill_counts_reset, leaf_counts_fill_reset.
+    rewrite (built_arrivals _ _ _ _ _ _ Hb), (built_leaf_arrivals _ _ _ _ _ _ Hb). auto.
+  - destruct Hc as [?|Hne]; [discriminate|].
+    rewrite fill_counts_acc, leaf_counts_fill_acc.
+    rewrite (built_counts_other _ _ _ _ _ _ _ Hne Hb), (built_leaf_counts_other _ _ _ _ _ _ _ Hne Hb).
+    rewrite <- (length_arrivals data t), <- (length_leaf_arrivals data t), !zadd_zeros.
+    rewrite (built_arrivals _ _ _ _ _ _ Hb), (built_leaf_arrivals _ _ _ _ _ _ Hb). auto.
+Qed.
+
+Lemma reset_has_id v id (t : tree) : has_id id (reset_tree v id t).
+Proof.
+  induction t as [| |ax mid c l IHl r IHr]; simpl; auto.
+  - rewrite lookup_set_same. discriminate.
+  - rewrite lookup_set_same. repeat split; auto. discriminate.
+Qed.
+
+Lemma reset_has_id_other v id id' (t : tree) : has_id id' t -> has_id id' (reset_tree v id t).
+Proof.
+  destruct (Z.eq_dec id' id) as [->|H]; [intros _; apply reset_has_id|].
+  induction t as [| |ax mid c l IHl r IHr]; simpl; auto.
+  - rewrite lookup_set_other by exact H. auto.
+  - rewrite lookup_set_other by exact H. intros (A & B & C). auto.
+Qed.
+
+Lemma run_ops_has_id id ops : forall t : tree, has_id id t -> has_id id (run_ops t ops).
+Proof.
+  induction ops as [|o ops IH]; intros t H; simpl; [exact H|].
+  apply IH. destruct o; simpl; [apply fill_has_id_other | apply reset_has_id_other]; exact H.
+Qed.
+
+(** equal leaf counts give kl_distance identical arguments *)
+Lemma kl_args_equal_counts (t : tree) id1 id2 a b :
+  leaf_counts id1 t = leaf_counts id2 t -> kl_args t id1 id2 = Some (a, b) -> a = b.
+Proof.
+  unfold kl_args. intros E. rewrite E. destruct (leaves t); [discriminate|].
+  destruct (all_some (leaf_counts id2 t)); [|discriminate]. intros H; inversion H. reflexivity.
+Qed.
+
 End Generic.
 
 (** ---------------------------------------------------------------- an exact instance: rationals *)
@@ -1151,3 +1230,114 @@ Proof.
   assert (E3 : (1 / inject_Z 2 == 1 # 2)%Q) by (unfold inject_Z; field).
   rewrite E3. lra.
 Qed.
+
+(** ---------------------------------------------------------------- exact instance: reals; Gibbs' inequality *)
+From Coq Require Import Reals Lra.
+
+Definition NumR08 : Num := {|
+  F := R; f0 := 0%R; f1 := 1%R;
+  fadd := Rplus; fsub := Rminus; fmul := Rmult; fdiv := Rdiv;
+  fsqrt := sqrt; fabs := Rabs; fneg := Ropp;
+  fleb := fun a b => if Rle_dec a b then true else false;
+  fltb := fun a b => if Rle_dec b a then false else true;
+  feqb := fun a b => if Req_EM_T a b then true else false;
+  fofZ := IZR; finf := 0%R (* unused *)
+|}.
+
+Section Gibbs.
+Local Open Scope R_scope.
+
+Fixpoint rsum (l : list R) : R := match l with [] => 0 | x :: t => x + rsum t end.
+
+(** Kullback-Leibler divergence  sum p_i ln (p_i / q_i)  of two positive vectors *)
+Fixpoint kl_R (p q : list R) : R :=
+  match p, q with
+  | x :: p', y :: q' => x * ln (x / y) + kl_R p' q'
+  | _, _ => 0
+  end.
+
+Lemma ln_le_sub1 x : 0 < x -> ln x <= x - 1.
+Proof.
+  intros Hx. pose proof (exp_ineq1_le (x - 1)) as H. replace (1 + (x - 1)) with x in H by ring.
+  destruct H as [H|H].
+  - left. rewrite <- (ln_exp (x - 1)). apply ln_increasing; assumption.
+  - right. rewrite H at 1. apply ln_exp.
+Qed.
+
+Lemma kl_term x y : 0 < x -> 0 < y -> x - y <= x * ln (x / y).
+Proof.
+  intros Hx Hy. unfold Rdiv. rewrite ln_mult by (try apply Rinv_0_lt_compat; assumption).
+  rewrite ln_Rinv by assumption.
+  assert (H : ln (y / x) <= y / x - 1) by (apply ln_le_sub1; apply Rdiv_lt_0_compat; assumption).
+  unfold Rdiv in H. rewrite ln_mult in H by (try apply Rinv_0_lt_compat; assumption).
+  rewrite ln_Rinv in H by assumption.
+  apply (Rmult_le_compat_l x) in H; [|lra].
+  replace (x * (y * / x - 1)) with (y - x) in H by (field; lra). lra.
+Qed.
+
+Lemma kl_R_lower : forall p q, length p = length q ->
+  (forall x, In x p -> 0 < x) -> (forall y, In y q -> 0 < y) -> rsum p - rsum q <= kl_R p q.
+Proof.
+  induction p as [|x p IH]; intros [|y q] Hl Hp Hq; simpl in *; try discriminate; [lra|].
+  assert (H1 : x - y <= x * ln (x / y)) by (apply kl_term; [apply Hp | apply Hq]; left; reflexivity).
+  assert (H2 : rsum p - rsum q <= kl_R p q) by (apply IH; [lia | intros; apply Hp; right; assumption | intros; apply Hq; right; assumption]).
+  lra.
+Qed.
+
+(** Gibbs' inequality *)
+Lemma kl_R_nonneg p q : length p = length q ->
+  (forall x, In x p -> 0 < x) -> (forall y, In y q -> 0 < y) -> rsum p = rsum q -> 0 <= kl_R p q.
+Proof. intros Hl Hp Hq Hs. pose proof (kl_R_lower p q Hl Hp Hq). lra. Qed.
+
+Lemma kl_R_self p : (forall x, In x p -> 0 < x) -> kl_R p p = 0.
+Proof.
+  induction p as [|x p IH]; intros Hp; simpl; [reflexivity|].
+  rewrite IH by (intros; apply Hp; right; assumption).
+  assert (0 < x) by (apply Hp; left; reflexivity).
+  unfold Rdiv. rewrite Rinv_r by lra. rewrite ln_1. ring.
+Qed.
+
+Lemma rsum_scaled (h D : R) (l : list Z) : D <> 0 ->
+  rsum (map (fun c => (IZR c + h) / D) l) = (IZR (zsum l) + IZR (len l) * h) / D.
+Proof.
+  intros HD. induction l as [|c l IH].
+  - simpl. unfold len; simpl. field. exact HD.
+  - simpl rsum. simpl map. rewrite IH. rewrite len_cons. simpl zsum.
+    rewrite !plus_IZR. field. exact HD.
+Qed.
+
+Lemma distn_R_facts (cs : list Z) :
+  cs <> [] -> (forall c, In c cs -> (0 <= c)%Z) ->
+  rsum (@distn NumR08 cs) = 1 /\ (forall x, In x (@distn NumR08 cs) -> 0 < x)
+  /\ length (@distn NumR08 cs) = length cs.
+Proof.
+  intros Hne Hpos. unfold distn, half, two. simpl.
+  assert (Hlen : (1 <= len cs)%Z) by (destruct cs; [congruence | rewrite len_cons; pose proof (len_nonneg cs); lia]).
+  pose proof (zsum_nonneg cs Hpos) as Hs.
+  apply IZR_le in Hs. apply IZR_le in Hlen.
+  assert (HD : IZR (zsum cs) + IZR (len cs) / 2 <> 0) by lra.
+  split; [|split].
+  - rewrite rsum_scaled by exact HD. field. lra.
+  - intros x Hx. apply in_map_iff in Hx as (c & <- & Hc).
+    pose proof (IZR_le _ _ (Hpos c Hc)) as Hc0.
+    apply Rdiv_lt_0_compat; lra.
+  - apply map_length.
+Qed.
+
+(** the corrected distributions of two count vectors of the same (non-zero) length have a
+    non-negative Kullback-Leibler divergence, which is 0 for equal counts *)
+Lemma kl_distn_nonneg (c1 c2 : list Z) :
+  c1 <> [] -> length c1 = length c2 ->
+  (forall c, In c c1 -> (0 <= c)%Z) -> (forall c, In c c2 -> (0 <= c)%Z) ->
+  0 <= kl_R (@distn NumR08 c1) (@distn NumR08 c2) /\ kl_R (@distn NumR08 c1) (@distn NumR08 c1) = 0.
+Proof.
+  intros Hne Hl H1 H2.
+  assert (Hne2 : c2 <> []) by (destruct c1, c2; simpl in *; congruence).
+  destruct (distn_R_facts c1 Hne H1) as (S1 & P1 & L1).
+  destruct (distn_R_facts c2 Hne2 H2) as (S2 & P2 & L2).
+  split; [|apply kl_R_self; assumption].
+  apply kl_R_nonneg; try assumption.
+  - etransitivity; [exact L1|]. rewrite Hl. symmetry. exact L2.
+  - etransitivity; [exact S1|]. symmetry. exact S2.
+Qed.
+End Gibbs.
